@@ -47,6 +47,9 @@ class Ctx:
         self.evaluations = 0
         self.distinct = 0
         self.exhaustive = None
+        self.rule = ("evaluations = executions of the real code under the step controller (one per schedule / "
+                     "fault point / generated case); distinct_nontrivial = those with pairwise different thread "
+                     "schedules (every one of them interleaves at least two threads)")
         self.workdir = os.path.join(WORK, prop)
         shutil.rmtree(self.workdir, ignore_errors=True)
         os.makedirs(self.workdir, exist_ok=True)
@@ -152,6 +155,7 @@ class Ctx:
             "samples": self.samples[:6] or ["(none)"],
             "evaluations": self.evaluations,
             "distinct_nontrivial": self.distinct,
+            "rule": self.rule,
             "tlc_runs": self.tlc_runs,
             "guards": self.guards,
         }
